@@ -56,17 +56,22 @@ def jobs(tier, seed):
         variants = []
         if hd == 3:
             variants.append(("", 0, 2, -1, n - 1, True))
-        elif tier == "thorough" or n <= 12:
+        elif n <= 12:
             variants.append((".e0=-1..0", 0, 3, -1, 0, True))
             variants += [(".e0=%d" % e, 0, 3, e, e, True) for e in range(1, n)]
         else:
+            # 3-erasure sets of the large hd=4 tables: a run with lowest erased index e0 holds C(n-1-e0, 2) sets and its symbolic
+            # execution time grows quadratically with that number (measured: 250 sets 27 min / 6 GB), so only the lowest indexes
+            # among the highest 9 (quick: 2 of them) resp. 12 (thorough: all of them) are run; sets of size <= 2 are complete
             variants.append(("", 0, 2, -1, n - 1, True))
-            variants += [(".3of.e0=%d" % e, 3, 3, e, e, False) for e in sorted(rnd.sample(range(max(0, n - 9), n - 2), 2))]
+            es = sorted(rnd.sample(range(max(0, n - 9), n - 2), 2)) if tier != "thorough" else list(range(max(0, n - 12), n - 2))
+            variants += [(".3of.e0=%d" % e, 3, 3, e, e, False) for e in es]
         if hd == 3 and m >= 3:      # 3 erasures on an hd=3 code: beyond tolerance, still admitted by the front end (<= m)
-            if tier == "thorough" or n <= 10:
+            if n <= 10:
                 variants += [(".beyond3.e0=%d" % e, 3, 3, e, e, True) for e in range(0, n - 2)]
             else:
-                variants += [(".beyond3.e0=%d" % e, 3, 3, e, e, False) for e in sorted(rnd.sample(range(max(0, n - 9), n - 2), 2))]
+                es = sorted(rnd.sample(range(max(0, n - 9), n - 2), 2)) if tier != "thorough" else list(range(max(0, n - 12), n - 2))
+                variants += [(".beyond3.e0=%d" % e, 3, 3, e, e, False) for e in es]
         for (sfx, emin, emax, lo, hi, complete) in variants:
             dd = {"K": k, "M": m, "HD": hd, "EMIN": emin, "EMAX": emax, "E0LO": lo, "E0HI": hi, "CELL": 1}
             within = "beyond" not in sfx
@@ -74,14 +79,14 @@ def jobs(tier, seed):
                 J.append(Job("xor.%s%s@%s" % (fn, sfx, tag), group="xor.%s%s" % (fn, "" if within else ".beyond3"),
                              props=(["C05", "C01", "C02", "C15"] if mode == 4 else ["C05", "C03", "C02", "C15"]) if within else ["C02", "C15"],
                              strength="P#" if complete else "B",
-                             bound="" if complete else "quick tier: 3-erasure sets sampled by lowest erased index (2 of the 7 highest of its %d values, VERIF_SEED: the sets with a low lowest index are the expensive ones and run in the thorough tier only); all sets of size <= 2 complete; thorough tier enumerates every set" % (n - 2),
+                             bound="" if complete else "quick tier: 3-erasure sets sampled by lowest erased index (2 of the 7 highest of its %d values, VERIF_SEED: the sets with a low lowest index are the expensive ones and run in the thorough tier only); all sets of size <= 2 complete; the thorough tier runs the 10 highest lowest-indexes; complete for every table with k+m <= 12" % (n - 2),
                              title=("flat_xor_hd_%s: all erasure sets with %d<=|E|<=%d and lowest erased index in [%d,%d], enumerated: %s" % (
                                     fn, emin, emax, lo, hi,
                                     "restored exactly (data and parity), any blocksize/data" if within else "error or exact result, never wrong bytes")),
                              functions=DECFN + ["flat_xor_hd_" + fn] + (["xor_reconstruct_one"] if mode == 5 else []),
                              defines=dict(dd, MODE=mode), loop_bounds=[(r">\\s*-1", emax + 2)], unwind=34, object_bits=16,
                              expect=["C02/C05: success implies" if mode == 4 else "C02/C03: success implies", "xor_bufs_and_store.requires"],
-                             timeout=2400, mem_gb=6, weight=n * n * (emax + 1),
+                             timeout=2400 if tier == "quick" else 3600, mem_gb=6 if tier == "quick" else 12, weight=n * n * (emax + 1),
                              repo_src=[XC, XH, FX], remove_bodies=["xor_bufs_and_store", "fast_memcpy"],
                              harness=["harness/x_code.c", "harness/stub_xor_cell.c", "harness/stub_env.c"],
                              case={"k": k, "m": m, "hd": hd, "emin": emin, "emax": emax, "e0": [lo, hi]},
